@@ -38,7 +38,8 @@ def seam_name(modname, attr):
 class Seam:
     """Context manager.  `sim_factory()` must return a fresh Sim per kernel call."""
 
-    def __init__(self, modname, attr, sim_factory):
+    def __init__(self, modname, attr, sim_factory, knob_scale=None):
+        self.knob_scale = knob_scale
         self.mod, self.orig, self.ks = kernel(modname, attr)
         self.attr = seam_name(modname, attr)
         self.sim_factory = sim_factory
@@ -58,7 +59,7 @@ class Seam:
                 args = dict(bound.arguments)
             except TypeError:
                 args = {"args": a, "kwargs": k}
-            res = ks.run(sim, *a, **k)
+            res = ks.run(sim, *a, knob_scale=self.knob_scale, **k)
             calls.append({"args": args, "result": res, "sim": sim})
             return res
 
@@ -84,3 +85,18 @@ def compiled_call(modname, attr, args, nthreads=1):
         return orig(**args)
     finally:
         numba.set_num_threads(old)
+
+
+def same_results(a, b):
+    """Bit-equality of two kernel results (arrays, or tuples/lists of arrays, NaN == NaN)."""
+    import numpy as np
+
+    if isinstance(a, (tuple, list)) or isinstance(b, (tuple, list)):
+        return isinstance(a, (tuple, list)) and isinstance(b, (tuple, list)) and len(a) == len(b) and all(same_results(x, y) for x, y in zip(a, b))
+    x, y = np.asarray(a), np.asarray(b)
+    if x.shape != y.shape:
+        return False
+    try:
+        return bool(np.array_equal(x, y, equal_nan=True))
+    except TypeError:
+        return bool(np.array_equal(x, y))
